@@ -30,7 +30,7 @@ import ast
 import itertools
 
 from .core import AnalysisError
-from .ordabs import Ev, ModelRaise, Obj, Unsupported
+from .ordabs import ModelIter, Ev, ModelRaise, Obj, Unsupported
 
 METHODS = ("push", "pop", "clear", "snapshot", "restore", "drop_snapshot", "peek", "empty", "__len__", "__iter__", "__getitem__")
 
@@ -151,6 +151,8 @@ def check_method(fn: ast.FunctionDef, where: str, method: str, max_snapshots: in
         want_items, want_ghost, want_ret, want_raise = spec(method, list(items), [list(g) for g in ghost], arg)
         try:
             ret = ev.run_function(fn.body)
+            if isinstance(ret, ModelIter):  # iter(self.items): compared by what it yields
+                ret = list(ret)
         except ModelRaise as err:
             if not want_raise:
                 bad.append(f"{desc}: raises {err}")
